@@ -196,6 +196,8 @@ class World:
         self.transport = transport
         self.now = 0
         self.gate = Gate()
+        from vlib import rig
+        self.timers = rig.Timers()
         self.conns = []
         self.server = None
         self.uri = None
@@ -205,7 +207,7 @@ class World:
         from vlib import rig
         ns = rig.modules()
         rig.wipe()
-        rig.set_sleep(self.gate.sleep)
+        rig.set_sleep(self.gate.sleep, self.timers)
         self.handler = ns.connector.handler
         if self.transport == "real":
             self.server = await rig.Server().start()
